@@ -14,6 +14,7 @@ func init() {
 	register(C05{})
 	register(C06{})
 	register(C07{})
+	register(C17{})
 	register(C18{})
 	register(C20{})
 }
